@@ -206,6 +206,55 @@ class time_limit:
         return False
 
 
+def fingerprint(obj, label_of=None, _depth=0, _seen=None):
+    """structural picture of an implementation object for state hashing:
+    everything it remembers (all attributes, recursively), with the objects
+    the harness knows replaced by their labels.  Used *in addition to* the
+    reference state, so that two histories are merged only when the real
+    object looks the same as well (a memo or a cache is hidden state)."""
+    if _seen is None:
+        _seen = set()
+    if label_of is not None:
+        lab = label_of(obj)
+        if lab is not None:
+            return ("ref", lab)
+    if obj is None or isinstance(obj, (bool, int, float, str, bytes)):
+        return repr(obj)
+    if _depth > 8:
+        return ("deep", type(obj).__name__)
+    if id(obj) in _seen:
+        return ("again", type(obj).__name__)
+    if isinstance(obj, (list, tuple)) or type(obj).__name__ == "deque":
+        _seen.add(id(obj))
+        out = (type(obj).__name__,) + tuple(
+            fingerprint(x, label_of, _depth + 1, _seen) for x in obj)
+        _seen.discard(id(obj))
+        return out
+    if isinstance(obj, (set, frozenset)):
+        return (type(obj).__name__,) + tuple(sorted(
+            repr(fingerprint(x, label_of, _depth + 1, _seen)) for x in obj))
+    if isinstance(obj, dict):
+        _seen.add(id(obj))
+        items = [(fingerprint(k, label_of, _depth + 1, _seen),
+                  fingerprint(v, label_of, _depth + 1, _seen))
+                 for k, v in obj.items()]
+        _seen.discard(id(obj))
+        # insertion order is observable for a dict: keep it
+        return ("dict",) + tuple(items)
+    mod = getattr(type(obj), "__module__", "") or ""
+    if hasattr(obj, "__dict__") and not isinstance(obj, type) and \
+            not callable(obj) and not mod.startswith(("builtins", "thread",
+                                                      "_thread", "logging")):
+        _seen.add(id(obj))
+        out = (type(obj).__name__,) + tuple(
+            (k, fingerprint(v, label_of, _depth + 1, _seen))
+            for k, v in sorted(vars(obj).items())
+            if not k.startswith("_verif"))
+        _seen.discard(id(obj))
+        return out
+    return ("obj", type(obj).__name__)
+
+
 class _Guarded:
     """picklable wrapper: run one pool task under a generous time limit, so
     that a library call that never returns ends as a reported violation and
